@@ -322,7 +322,7 @@ fn run_seq_ilv(
 }
 
 /// Properties whose sequential oracles also run on the MACRO search (script.rs)
-const MACRO_HOSTS: [&str; 7] = ["C02", "C04", "C09", "C10", "C13", "C14", "C15"];
+const MACRO_HOSTS: [&str; 9] = ["C02", "C04", "C07", "C09", "C10", "C13", "C14", "C15", "C21"];
 
 fn macro_part(prop: &str, tier: &str, probes: &Probes, col: &mut crate::report::Collector) -> Option<Value> {
     if !MACRO_HOSTS.contains(&prop) {
@@ -336,7 +336,7 @@ fn macro_part(prop: &str, tier: &str, probes: &Probes, col: &mut crate::report::
         rich: true,
         policy_alphabet: false,
         probes: probes.clone(),
-        max_secs: if thorough { 150.0 } else { 8.0 },
+        max_secs: if thorough { 12.0 } else { 5.0 },
     };
     let t0 = Instant::now();
     let (st, c) = crate::script::macro_all(&cfgs, &p);
@@ -353,7 +353,7 @@ fn macro_part(prop: &str, tier: &str, probes: &Probes, col: &mut crate::report::
         rich: false,
         policy_alphabet: true,
         probes: probes.clone(),
-        max_secs: if thorough { 120.0 } else { 8.0 },
+        max_secs: if thorough { 8.0 } else { 4.0 },
     };
     let t1 = Instant::now();
     let (pst, c) = crate::script::macro_all(&crate::script::policy_configs(thorough), &pp);
@@ -365,7 +365,7 @@ fn macro_part(prop: &str, tier: &str, probes: &Probes, col: &mut crate::report::
     if let Some(m) = cov.as_object_mut() {
         m.insert("policy_family".into(), json!({"rule": "MACRO search with the allocation-centred alphabet (one allocation of order 0 / huge / tree order per class with and without slot, exhaust at huge order per class, free all, free every other, drain) on 2-3 tree allocators with 3-class policies",
             "configs": pst.configs, "sequences": pst.sequences, "states": pst.states, "basic_calls": pst.calls,
-            "depth": pst.depth, "configs_capped": pst.capped}));
+            "depth": pst.depth, "jobs_capped": pst.capped}));
     }
     Some(cov)
 }
@@ -374,7 +374,7 @@ fn ilv_opts(thorough: bool) -> crate::ilv::IlvOpts {
     let bound = std::env::var("VERIF_ILV_BOUND")
         .ok()
         .and_then(|s| if s == "inf" { Some(usize::MAX) } else { s.parse().ok() })
-        .unwrap_or(if thorough { 4 } else { 3 });
+        .unwrap_or(4);
     crate::ilv::IlvOpts {
         bound,
         crash: false,
